@@ -81,7 +81,7 @@ TOpen ==
               auth |-> e.auth, priv |-> e.priv, akt |-> e.akt, akm |-> e.akm, pkt |-> e.pkt, pkm |-> e.pkm,
               maxbuf |-> e.maxbuf, pending |-> FALSE, op |-> "", reqid |-> Zero, msgid |-> Zero,
               it |-> [start |-> <<>>, last |-> <<>>], inbox |-> <<>>,
-              salts |-> {}, lastSalt |-> <<>>,
+              salts |-> {}, lastSalt |-> <<>>, gap |-> 0,
               walk |-> NoWalk]]
 
 (* C05 / C06: a subtree walk through the SnmpSession iterators.  wbuf = pairs the iterator still has to hand
@@ -126,7 +126,7 @@ TSetKeys ==
   /\ LET e == Rec[l] IN
      S' = [S EXCEPT ![e.sid] = [@ EXCEPT !.user = e.user, !.auth = e.auth, !.priv = e.priv, !.akt = e.akt,
                                          !.akm = e.akm, !.pkt = e.pkt, !.pkm = e.pkm,
-                                         !.salts = {}, !.lastSalt = <<>>]]    \* C14: uniqueness is per key installation
+                                         !.salts = {}, !.lastSalt = <<>>, !.gap = 0]]    \* C14: uniqueness is per key installation
 
 -----------------------------------------------------------------------------
 (* C03 / C08 / C09 / C11 / C13 / C14 / C15: the datagram a call puts on the wire *)
@@ -168,14 +168,19 @@ ScopedOK(s, sc, e) ==
   /\ PduMatchesCall(sc.pdu, e.op, NamesFor(s, e), e.maxrep)
 
 (* C14: salts never repeat within a key installation and advance by one per message *)
+(* n-th successor of a fixed-width big-endian counter *)
+RECURSIVE SuccN(_, _, _)
+SuccN(c, w, n) == IF n = 0 THEN c
+                  ELSE LET x == AddOneBE(c) IN SuccN(IF Len(x) > w THEN SubSeq(x, 2, w + 1) ELSE x, w, n - 1)
+(* a request that was refused (nothing sent) may or may not have consumed a counter value: after `gap`
+   refusals the next salt is previous + 1 .. previous + 1 + gap *)
 SaltOK(s, m) ==
   /\ Len(m.usm.priv) = 8
   /\ m.usm.priv \notin s.salts
   /\ s.lastSalt # <<>> =>
        (IF s.priv = "des"
-          THEN SubSeq(m.usm.priv, 5, 8) = (LET n == AddOneBE(SubSeq(s.lastSalt, 5, 8)) IN
-                                            IF Len(n) > 4 THEN SubSeq(n, 2, 5) ELSE n)
-          ELSE m.usm.priv = (LET n == AddOneBE(s.lastSalt) IN IF Len(n) > 8 THEN SubSeq(n, 2, 9) ELSE n))
+          THEN \E k \in 1..(1 + s.gap) : SubSeq(m.usm.priv, 5, 8) = SuccN(SubSeq(s.lastSalt, 5, 8), 4, k)
+          ELSE \E k \in 1..(1 + s.gap) : m.usm.priv = SuccN(s.lastSalt, 8, k))
   /\ s.priv = "des" => SubSeq(m.usm.priv, 1, 4) = U32Octets(m.usm.boots)
 
 (* C14: nothing of the scoped PDU in clear: the request's OID octets occur nowhere in the datagram *)
@@ -218,22 +223,44 @@ AfterSend(s, e) ==
                         THEN (IF e.itstart # <<>> THEN [start |-> e.itstart, last |-> names[1]]
                               ELSE [start |-> names[1], last |-> names[1]])
                         ELSE @,
+               !.gap = 0,
                !.salts = IF HasPriv(s) THEN @ \cup {d.m.usm.priv} ELSE @,
                !.lastSalt = IF HasPriv(s) THEN d.m.usm.priv ELSE @]
+
+(* C17: the largest size the request of call e can have (request-id / msgID take at most 4 content octets).
+   A request is refused for lack of room only if it really cannot fit the message buffer of maxbuf octets.
+   With privacy the scoped PDU is first serialised, behind one block of padding, into a private buffer of the
+   same capacity, and padded to a whole number of blocks. *)
+MaxIdSize == 6
+PadUp(n, blk) == IF n % blk = 0 THEN n ELSE (n + blk) - (n % blk)
+ReqNames(s, e) == IF e.walk THEN <<s.it.last>> ELSE IF e.names # <<>> THEN e.names ELSE [i \in 1..Len(e.oids) |-> OidFromText(e.oids[i]).content]
+MaxPduSize(s, e) ==
+  SizePdu([i \in 1..Len(ReqNames(s, e)) |-> Len(ReqNames(s, e)[i])],
+          <<MaxIdSize, 3, IF e.op = "getbulk" THEN SizeInt(e.maxrep) ELSE 3>>)
+MaxReqSize(s, e) ==
+  IF s.ver # "v3" THEN SizeCommunityMsg(Len(s.community), MaxPduSize(s, e))
+  ELSE LET sc == SizeScoped(Len(s.engine), MaxPduSize(s, e))
+           data == IF HasPriv(s) THEN SizeTLV(PadUp(sc, Block(s))) ELSE sc
+           usm == SizeUsm(Len(s.engine), s.boots, s.time, Len(s.user), IF HasAuth(s) THEN 12 ELSE 0, IF HasPriv(s) THEN 8 ELSE 0)
+       IN SizeV3Msg(MaxIdSize, 4, usm, data)
+PrivBufNeed(s, e) == IF HasPriv(s) THEN Block(s) + SizeScoped(Len(s.engine), MaxPduSize(s, e)) ELSE 0
+DoesNotFit(s, e) == MaxReqSize(s, e) > s.maxbuf \/ PrivBufNeed(s, e) > s.maxbuf
 
 (* a refusal (exception, nothing sent) must be justified *)
 RefusalOK(s, e) ==
   /\ e.nwire = 0                                                    \* C08 / C17: nothing is sent
   /\ \/ /\ \E i \in 1..Len(e.oids) : OidFromText(e.oids[i]).c # Accept       \* C08: invalid OID text
         /\ e.exc = "ValueError" \/ ExcIn("SnmpError", e.exc, e.bases)
-     \/ e.exc = "SnmpEncodeError" /\ e.oversize                        \* C17 (size judged by TraceSize / driver)
+     \/ /\ e.exc = "SnmpEncodeError"                                    \* C17: it really does not fit
+        /\ \A i \in 1..Len(e.oids) : OidFromText(e.oids[i]).c # Reject
+        /\ DoesNotFit(s, e)
 
 TSend ==
   /\ IsEvent("Send")
   /\ LET e == Rec[l]  s == S[e.sid] IN
      IF s.tainted THEN UNCHANGED <<S, fails>>
      ELSE IF e.exc # ""
-       THEN Judge(e.sid, RefusalOK(s, e), s)
+       THEN Judge(e.sid, RefusalOK(s, e), [s EXCEPT !.gap = IF @ < 50 THEN @ + 1 ELSE @])
        ELSE Judge(e.sid,
                   /\ e.nwire = 1
                   /\ \A i \in 1..Len(e.oids) : OidFromText(e.oids[i]).c # Reject     \* C08: invalid text is never sent
